@@ -53,6 +53,14 @@ class _Continue(Exception):
 _uid = itertools.count(1)
 
 
+def _without_decorators(fn: ast.FunctionDef) -> ast.FunctionDef:
+    import copy
+    g = copy.copy(fn)
+    g.decorator_list = [d for d in fn.decorator_list if (dotted(d) or (dotted(d.func) if isinstance(d, ast.Call) else "")) not in
+                        ("lru_cache", "functools.lru_cache", "cache", "functools.cache")]
+    return g
+
+
 class NativeObj:
     """Base of /verif's own models of third-party objects (parser runtime, files): attribute access and calls go to the model."""
 
@@ -377,6 +385,38 @@ class Interp:
         try:
             fn = f.node
             decos = [dotted(d) for d in fn.decorator_list]
+            # decorators change what a call does: the ones the repository uses are modelled, memoising ones are modelled as a table that lives
+            # as long as this interpreter (= the process), anything else is refused rather than ignored
+            memo_key = None
+            for dn, dexpr in zip(decos, fn.decorator_list):
+                base = dn if dn is not None else (dotted(dexpr.func) if isinstance(dexpr, ast.Call) else None)
+                if base in ("staticmethod", "classmethod", "property", "abstractmethod", "abc.abstractmethod", "override", "typing.override", "final", "typing.final") \
+                        or (base or "").endswith((".setter", ".getter")):
+                    continue
+                if base in ("lru_cache", "functools.lru_cache", "cache", "functools.cache"):
+                    bounded = isinstance(dexpr, ast.Call) and not any(
+                        isinstance(v, ast.Constant) and v.value is None for v in list(dexpr.args[:1]) + [k.value for k in dexpr.keywords if k.arg == "maxsize"])
+                    if base.endswith("lru_cache") and (bounded or not isinstance(dexpr, ast.Call)):
+                        raise Unsupported(f"{f.qual} is memoised with a bounded lru_cache; eviction is not modelled")
+                    try:
+                        memo_key = (f.qual, tuple(args), tuple(sorted(kwargs.items())))
+                        hash(memo_key)
+                    except TypeError:
+                        raise PyExc("TypeError", f"unhashable argument in a call of the memoised function {f.qual}")
+                    continue
+                raise Unsupported(f"decorator `{ast.unparse(dexpr)}` on {f.qual} is not modelled")
+            if memo_key is not None:
+                table = self.__dict__.setdefault("_memo_tables", {})
+                if memo_key in table:
+                    return table[memo_key]
+                self.depth -= 1
+                try:
+                    stripped = Func(f.mod, f.cls, _without_decorators(fn))
+                    res = self.call_func(stripped, args, kwargs, parent)
+                finally:
+                    self.depth += 1
+                table[memo_key] = res
+                return res
             params = [a.arg for a in fn.args.posonlyargs + fn.args.args]
             if "staticmethod" in decos and args and isinstance(args[0], (AObj, ClassVal)) and len(args) > len(params):
                 args = args[1:]
